@@ -26,6 +26,12 @@ def configs(ctx):
             for (H, W) in ((9, 12), (8, 8), (3, 7), (2, 2), (13, 5)):
                 items.append(('afb-nonsep', mode, 4, Lc, Lr, H, W))
                 items.append(('sfb-nonsep', mode, 4, Lc, Lr, H, W))
+                items.append(('afb-prepared', mode, 4, Lc, Lr, H, W))
+                items.append(('sfb-prepared', mode, 4, Lc, Lr, H, W))
+        for L in (4, 6):
+            for (H, W) in ((9, 12), (8, 8), (3, 7)):
+                items.append(('afb-prepared', mode, 2, L, L, H, W))
+                items.append(('sfb-prepared', mode, 2, L, L, H, W))
     return items
 
 
@@ -35,6 +41,7 @@ def check(ctx):
     cov = {'programs': cmp_, 'disagreements_checked': diff, 'samples': samples or [{'note': 'none'}],
            'modes': list(MODES),
            'rule': 'each program = (afb2d_nonsep vs afb2d | sfb2d_nonsep vs sfb2d, mode, 2- or 4-filter form, '
-                   'filter lengths, size): both functions are interpreted on the same symbolic input and formal '
+                   'filter lengths, size; also the separable bank given filters prepared as tensors, the documented '
+                   'second argument form): both functions are interpreted on the same symbolic input and formal '
                    'filters; the four subbands / the reconstruction must be identical operators'}
     return Result('translation_validation', cov, findings, assumptions=ASSUME)
